@@ -65,6 +65,15 @@ def _cases(tier, seed):
             if deg >= 3:
                 continue   # five points do not determine a cubic: the six- and nine-point sets below do
             yield dict(est="Trend", degree=deg, pts=s, sc=1.0e5)
+    # a repeated station (the same coordinates twice, with their own data values): with forces at the data points that is two forces
+    # at one place - singular without damping (not compared), a well-defined optimum with damping (seed C02-11)
+    for s in ([0, 2, 4, 6, 0], [1, 3, 5, 7, 8, 3], [0, 1, 2, 3, 4, 4, 0]):
+        yield dict(est="Spline", mindist_rel=0.0, pts=s, forces=None, sc=1.0)
+        yield dict(est="Spline", mindist_rel=0.1, pts=s, forces=None, sc=1e3)
+        yield dict(est="Spline", mindist_rel=0.0, pts=s, forces=[1, 5], sc=1.0)
+        yield dict(est="VectorSpline2D", poisson=0.5, mindist_rel=0.1, pts=s, forces=None, sc=1.0)
+        for deg in (0, 1):
+            yield dict(est="Trend", degree=deg, pts=s, sc=1.0)
     for deg in (0, 1, 2, 3, 4):
         for s in ([0, 1, 2, 3, 4, 5, 6, 7, 8], [0, 1, 2, 3, 5, 6, 7, 8]):
             for sc in (1.0e5, 2.5e4, 1.0):
@@ -130,6 +139,12 @@ def _weights(kind, npts, comp=0):
         w = np.ones(npts)
         w[npts // 2] = 1e-12
         return w
+    if kind == "ultra":
+        # weights 1e-18 and 1e-30 of the largest: numerically "no information", but still rows of the system (seed C02-12)
+        w = np.ones(npts) * (2.0 if comp else 1.0)
+        w[npts // 2] = 1e-18
+        w[0] = 1e-30
+        return w
     raise ValueError(kind)
 
 
@@ -189,7 +204,7 @@ def run(case, rec):
             return est
 
     dampings = [None] if kind == "Trend" else DAMP
-    wkinds = ["none", "ramp"] if vector else ["none", "const", "ramp", "tiny"]
+    wkinds = ["none", "ramp", "ultra"] if vector else ["none", "const", "ramp", "tiny", "ultra"]
     nrow = 2 * npts if vector else npts
     datas = [np.eye(nrow)[i] for i in range(nrow)] + [np.arange(1.0, nrow + 1) * 0.5 - 1.0]
     ncompared = 0
